@@ -1789,6 +1789,136 @@ class StackInterleavedLayer(Spec):
         return None
 
 
+def OverlapLayer_names(ex):
+    own = ex.spec._own
+    mk = lambda pre: NameStr(pre + own.prefix, own.atom, own.suffix)
+    return mk("overlap-prepend-"), mk("overlap-append-")
+
+
+class OverlapLayer(Spec):
+    """CreateOverlappingPartitions._layer with integer windows (shift / diff / rolling(n) / ffill / bfill / map_overlap):
+    output i combines partition i with the last `before` rows of partition i-1 (nothing for i == 0 or before == 0) and
+    the first `after` rows of partition i+1 (nothing for the last partition or after == 0).  Every output is defined,
+    the helper tasks read exactly the neighbouring partition, and nothing else is referenced."""
+
+    file, qualname, props = "dask_expr/_expr.py", "CreateOverlappingPartitions._layer", ["C02", "C09", "C05"]
+    case = {"before": "int", "after": "int"}
+    assumptions = ["time-based windows (before / after given as timedelta) are outside tier P: their branches are not reached by the enumerated cases (integer or zero windows); tier R exercises them"]
+
+    def cases(self):
+        for b in ("zero", "int"):
+            for a in ("zero", "int"):
+                yield {"before": b, "after": a}
+
+    def make_inputs(self, ex, sym, fr):
+        n = sym.int("n_in", lo=1)
+        before = sym.int("before", lo=1) if self.case["before"] == "int" else 0
+        after = sym.int("after", lo=1) if self.case["after"] == "int" else 0
+        frame = _dep("self.frame", n)
+        s = Obj("self", {"frame": frame, "_name": NameStr("", "self"), "before": before, "after": after}, cls=("CreateOverlappingPartitions", "Expr"))
+        self._own = s.attrs["_name"]
+        return {"self": s, "n_in": n, "before": before, "after": after}
+
+    def isinstance_hook(self, ex, fr, v, tname):
+        if tname in ("numbers.Integral", "datetime.timedelta"):
+            return tname == "numbers.Integral"
+        return NotImplemented
+
+    @staticmethod
+    def _names(own):
+        mk = (lambda pre: NameStr(pre + own.prefix, own.atom, own.suffix)) if isinstance(own, NameStr) else (lambda pre: pre + own)
+        return mk("overlap-prepend-"), mk("overlap-append-")
+
+    # prevs after _i iterations of the first loop: [None, (prepend, 0), ..., (prepend, _i - 1)]; nexts after _i iterations
+    # of the integer `after` loop: [(append, 1), ..., (append, _i)]
+    acc_closed = {
+        0: {0: lambda ex, fr, env: Seq(z3.simplify(zint(env["_i"]) + 1), lambda k, pre=OverlapLayer_names(ex)[0]: _ite_key(zint(k) == 0, None, (pre, z3.simplify(zint(k) - 1))), "list")},
+        4: {0: lambda ex, fr, env: Seq(env["_i"], lambda k, app=OverlapLayer_names(ex)[1]: (app, z3.simplify(zint(k) + 1)), "list")},
+    }
+
+    def ensures(self):
+        def parts(c, e):
+            own = c.attr(e["self"], "_name")
+            pre, app = OverlapLayer._names(own)
+            return own, pre, app, c.attr(e["self"], "frame._name")
+
+        is_ = lambda c, a, b: (c.eq(a, b) is True) if c.symbolic else a == b
+        has_b = lambda e: not (isinstance(e["before"], int) and e["before"] == 0)
+        has_a = lambda e: not (isinstance(e["after"], int) and e["after"] == 0)
+
+        def outputs(c, e, r):
+            own, pre, app, fname = parts(c, e)
+            n = e["n_in"]
+
+            def shape(i):
+                def ok(v):
+                    if len(v) != 6:
+                        return False
+                    prev_ok = c.is_none(v[1]) if not has_b(e) else (c.ite(c.eq(i, 0), c.is_none(v[1]), c.eq(v[1], (pre, i - 1))) if c.symbolic else ((v[1] is None) if i == 0 else v[1] == (pre, i - 1)))
+                    next_ok = c.is_none(v[3]) if not has_a(e) else (c.ite(c.eq(i, n - 1), c.is_none(v[3]), c.eq(v[3], (app, i + 1))) if c.symbolic else ((v[3] is None) if i == n - 1 else v[3] == (app, i + 1)))
+                    return c.And(c.eq(v[0], c.fn("_combined_parts")), prev_ok, c.eq(v[2], (fname, i)), next_ok, c.eq(v[4], e["before"]), c.eq(v[5], e["after"]))
+
+                return ok
+
+            return c.forall(0, n, lambda i: c.holds_at(r, (own, i), shape(i)))
+
+        def helpers(c, e, r):
+            own, pre, app, fname = parts(c, e)
+            n = e["n_in"]
+
+            def one(k, v):
+                if len(k) != 2:
+                    return False
+                if is_(c, k[0], own):
+                    return c.And(k[1] >= 0, k[1] < n)
+                if is_(c, k[0], pre):
+                    return c.And(has_b(e), k[1] >= 0, k[1] < n - 1, len(v) == 3, c.eq(v[0], c.fn("M.tail")), c.eq(v[1], (fname, k[1])), c.eq(v[2], e["before"]))
+                return c.And(has_a(e), c.eq(k[0], app), k[1] >= 1, k[1] < n, len(v) == 3, c.eq(v[0], c.fn("M.head")), c.eq(v[1], (fname, k[1])), c.eq(v[2], e["after"]))
+
+            return c.forall_entries(r, one)
+
+        def k2(c, e, r):
+            own, pre, app, fname = parts(c, e)
+            n = e["n_in"]
+            cl = []
+            if has_b(e):
+                cl.append(c.forall(0, n - 1, lambda j: c.defined(r, (pre, j))))
+            if has_a(e):
+                cl.append(c.forall(1, n, lambda j: c.defined(r, (app, j), witness=[j - 1])))
+            return c.And(*cl) if cl else True
+
+        return {"K1-output-i-combines-its-neighbours-windows": outputs, "K3-helpers-read-the-neighbouring-partition": helpers, "K2-helper-keys-defined": k2}
+
+    def concrete_globals(self):
+        import dask_expr._expr as m
+
+        return vars(m)
+
+    def concrete_inputs(self):
+        for n in (1, 2, 4):
+            for b in (0, 2):
+                for a in (0, 1):
+                    yield {"n": n, "before": b, "after": a}
+
+    def concrete_env(self, inputs):
+        return None
+
+    def run_concrete(self, inputs):
+        from dask_expr._expr import CreateOverlappingPartitions
+
+        fr = stub_frame(npartitions=inputs["n"])
+        obj = CreateOverlappingPartitions(fr, inputs["before"], inputs["after"])
+        return {"self": obj, "n_in": inputs["n"], "before": inputs["before"], "after": inputs["after"]}, obj._layer()
+
+    def inputs_from_model(self, model, sz, sym):
+        n = sym.read_int(model, "n_in")
+        if n is None or not (1 <= n <= 40):
+            return None
+        b = sym.read_int(model, "before") if self.case["before"] == "int" else 0
+        a = sym.read_int(model, "after") if self.case["after"] == "int" else 0
+        return {"n": n, "before": b or 0, "after": a or 0}
+
+
 class _MetaEq:
     """An empty frame compared by schema (pandas objects have no boolean ==)."""
 
@@ -1818,4 +1948,4 @@ def _scenarios():
     return out
 
 
-SPECS = [CumulativeFinalizeLayer(), FromGraphLayer(), MoreNSplits(), MoreDivisions(), MoreLayer(), SizeLayer(), SimpleShuffleLayer(), DiskShuffleLayer(), TreeReduceLayer(), TaskShuffleTail(), BroadcastDep(), BlockwiseArg(), BlockwiseTask(), EnforceDivisionsTask(), ExprLayer(), LengthsLayer(), StackPartitionLayer(), StackInterleavedLayer()] + _scenarios()
+SPECS = [CumulativeFinalizeLayer(), FromGraphLayer(), MoreNSplits(), MoreDivisions(), MoreLayer(), SizeLayer(), SimpleShuffleLayer(), DiskShuffleLayer(), TreeReduceLayer(), TaskShuffleTail(), BroadcastDep(), BlockwiseArg(), BlockwiseTask(), EnforceDivisionsTask(), ExprLayer(), LengthsLayer(), StackPartitionLayer(), StackInterleavedLayer(), OverlapLayer()] + _scenarios()
